@@ -28,10 +28,12 @@ type PCParams struct {
 	FlushEach bool     `json:"flush_each"`
 	AckEach   bool     `json:"ack_each"`
 	Prefill   int      `json:"prefill"` // events written, flushed (and half of them ACKed) before the threads start
+	Budgets   []int    `json:"budgets"` // events the consumer reads per reader transaction (cycled); default 1
+	Gate      int      `json:"gate"`    // >0: the producer writes event #Gate only after the consumer has read Gate events
 }
 
 func (p PCParams) String() string {
-	return fmt.Sprintf("%s/sizes%v/flushEach=%v/ackEach=%v/prefill=%d", p.Cfg, p.Sizes, p.FlushEach, p.AckEach, p.Prefill)
+	return fmt.Sprintf("%s/sizes%v/flushEach=%v/ackEach=%v/prefill=%d/budgets=%v/gate=%d", p.Cfg, p.Sizes, p.FlushEach, p.AckEach, p.Prefill, p.Budgets, p.Gate)
 }
 
 type pcShared struct {
@@ -73,6 +75,9 @@ func (s *pcShared) incConsumed() int { s.consumed++; return s.consumed }
 //go:norace
 func (s *pcShared) failed() bool { return len(s.viol) > 0 }
 
+//go:norace
+func (s *pcShared) getConsumed() int { return s.consumed }
+
 func mkProdConsScenario(raw json.RawMessage) (explore.Body, error) {
 	var p PCParams
 	if err := json.Unmarshal(raw, &p); err != nil {
@@ -112,6 +117,11 @@ func mkProdConsScenario(raw json.RawMessage) (explore.Body, error) {
 
 		pt := sched.Spawn("P", func() {
 			for i, sz := range p.Sizes {
+				if p.Gate > 0 && i == p.Gate {
+					for sh.getConsumed() < p.Gate && !sh.failed() {
+						sched.YieldSpin("producer waits for the consumer")
+					}
+				}
 				data := queuedrv.EventBytes(base+i, sz)
 				if n, err := w.Write(data); err != nil || n != len(data) {
 					sh.add("prodcons/write-error", "Write of event %d failed: n=%d err=%v", i, n, err)
@@ -123,6 +133,7 @@ func mkProdConsScenario(raw json.RawMessage) (explore.Body, error) {
 				}
 				sh.setProduced(i + 1)
 				sh.ev('w')
+				sched.Step("producer between two writer calls")
 				if p.FlushEach {
 					if err := w.Flush(); err != nil {
 						sh.add("prodcons/write-error", "Flush after event %d failed: %v", i, err)
@@ -142,20 +153,30 @@ func mkProdConsScenario(raw json.RawMessage) (explore.Body, error) {
 		ct := sched.Spawn("C", func() {
 			unacked := pending
 			got := 0
-			for got < total && !sh.failed() {
+			budgets := p.Budgets
+			if len(budgets) == 0 {
+				budgets = []int{1}
+			}
+			for round := 0; got < total && !sh.failed(); round++ {
 				if err := r.Begin(); err != nil {
 					sh.add("prodcons/read-error", "Reader.Begin failed: %v", err)
 					return
 				}
-				n, err := r.Next()
-				if err != nil {
-					sh.add("prodcons/read-error", "Reader.Next failed: %v", err)
-					r.Done()
-					return
-				}
-				if n > 0 {
-					if got >= len(p.Sizes) || n != p.Sizes[got] {
-						sh.add("prodcons/order", "consumer event %d has %d bytes; the producer's event %d has %v", got, n, got, p.Sizes)
+				readNow := 0
+				empty := false
+				for k := 0; k < budgets[round%len(budgets)] && got < total; k++ {
+					n, err := r.Next()
+					if err != nil {
+						sh.add("prodcons/read-error", "Reader.Next failed: %v", err)
+						r.Done()
+						return
+					}
+					if n == 0 {
+						empty = true
+						break
+					}
+					if n != p.Sizes[got] {
+						sh.add("prodcons/order", "consumer event %d has %d bytes; the producer's events have %v bytes", got, n, p.Sizes)
 						r.Done()
 						return
 					}
@@ -173,11 +194,13 @@ func mkProdConsScenario(raw json.RawMessage) (explore.Body, error) {
 					}
 					got++
 					unacked++
+					readNow++
 					sh.incConsumed()
 					sh.ev('r')
+					sched.Step("consumer between two reader calls")
 				}
 				r.Done()
-				if n > 0 && p.AckEach || (n == 0 && unacked > 0 && !p.AckEach && sh.isDone(total)) {
+				if readNow > 0 && p.AckEach {
 					if err := q.ACK(uint(unacked)); err != nil {
 						sh.add("prodcons/ack-error", "ACK(%d) of delivered events failed: %v", unacked, err)
 						return
@@ -185,7 +208,7 @@ func mkProdConsScenario(raw json.RawMessage) (explore.Body, error) {
 					unacked = 0
 					sh.ev('a')
 				}
-				if n == 0 {
+				if empty && readNow == 0 {
 					sched.YieldSpin("consumer polls for events")
 				}
 			}
@@ -236,6 +259,8 @@ func pcScenarios(quick bool) (ps []interface{}, names []string) {
 	add(PCParams{Cfg: c, Sizes: []int{10, 1500}, FlushEach: false, AckEach: true})
 	add(PCParams{Cfg: c, Sizes: []int{5000}, FlushEach: true, AckEach: true})
 	add(PCParams{Cfg: c, Sizes: []int{500, 500}, FlushEach: true, AckEach: false, Prefill: 2})
+	// the consumer keeps unread events known from an earlier transaction, the producer appends to the tail page meanwhile
+	add(PCParams{Cfg: c, Sizes: []int{300, 300, 300}, FlushEach: true, AckEach: false, Budgets: []int{1, 2}, Gate: 2})
 	if !quick {
 		add(PCParams{Cfg: c, Sizes: []int{500, 500, 500}, FlushEach: true, AckEach: true})
 		add(PCParams{Cfg: c, Sizes: []int{10, 1500, 10}, FlushEach: false, AckEach: true})
